@@ -40,6 +40,7 @@ THEOREMS = [
     "JanetModel.Props.C11.position_function_of_bytes",
     "JanetModel.Props.C11.position_independent_of_scan",
     "JanetModel.Props.C11.escape_roundtrip",
+    "JanetModel.Props.C11.stringend_reads_in_bounds",
 ]
 ENV = dict(os.environ, ASAN_OPTIONS="detect_leaks=0:abort_on_error=0", UBSAN_OPTIONS="print_stacktrace=1")
 BAD_MARKS = ("PANIC", "SECOND-ERROR", "BADCOUNT", "SHORT", "NOTNIL", "BADWRAP", "NOT-A-STRING", "BADOP", "bad-op")
@@ -184,6 +185,51 @@ def gen_texts(ctx, n):
             fl = sorted(set(rng.range(1, len(t) - 1) for _ in range(rng.range(1, 2))))
         texts.append({"kind": kind, "bytes": t, "flushes": fl})
     return texts
+
+
+def gen_sequences(ctx, n):
+    """texts that are sequences of complete top-level forms fed to ONE parser (scratch-buffer reuse: later tokens shorter than
+    earlier ones, tiny long strings with CR / LF contents)"""
+    rng = ctx.rng.fork("seqs")
+    out = []
+    for _ in range(n):
+        forms = G.form_sequence(rng)
+        sep = rng.choice([b" ", b"\n", b" ", b"\r\n"])
+        out.append({"kind": "sequence", "bytes": G.join_forms(forms, sep), "flushes": [], "forms": forms, "sep": sep})
+    return out
+
+
+STRIP_SM = None
+
+
+def strip_sm(ev):
+    """remove tuple source-map positions from a canonical event string (a form parsed alone sits at another line/column)"""
+    import re
+    global STRIP_SM
+    if STRIP_SM is None:
+        STRIP_SM = re.compile(r"([(\[])\d+:\d+ ?")
+    return STRIP_SM.sub(r"\1", ev)
+
+
+def history_oracle(hx, seqs):
+    """a complete top-level form must parse to the same value after any prefix of complete forms as in a fresh parser
+    (consequence of the property for complete forms).  Returns (failures, crashes, runs)"""
+    lines, meta = [], []
+    for si, t in enumerate(seqs):
+        before = b""
+        for fi, f in enumerate(t["forms"]):
+            # long-string dedent legitimately depends on the column of the opening delimiter: keep the column
+            tail = before.replace(b"\r", b"\n").rsplit(b"\n", 1)[-1]
+            b = b" " * len(tail) + f + t["sep"]
+            t.setdefault("alone", []).append(b)
+            lines.append("case %s c%d,E,D" % (b.hex(), len(b)))
+            meta.append((si, fi))
+            before += f + t["sep"]
+    outs, crashes = run_harness(hx, lines)
+    alone = {}
+    for (si, fi), o in zip(meta, outs):
+        alone[(si, fi)] = o
+    return alone, crashes, lines
 
 
 def load_corpus():
@@ -340,7 +386,8 @@ def run(ctx, replay_lines=None):
         return ctx.finish("proof", {"evaluations": 0, "distinct_nontrivial": 0, "rule": "n/a", "samples": []})
 
     # ---- cases
-    texts = load_corpus() + gen_texts(ctx, 1500 if quick else 20000)
+    seqs = gen_sequences(ctx, 600 if quick else 8000)
+    texts = load_corpus() + gen_texts(ctx, 1500 if quick else 20000) + seqs
     nsched = 8 if quick else 12
     lines, owner = case_lines(ctx, texts, nsched)
     ctx.say("%d texts, %d (text, schedule) runs" % (len(texts), len(lines)))
@@ -361,6 +408,38 @@ def run(ctx, replay_lines=None):
         reported.add(sig)
         ctx.violation(sig, {"kind": "parser-oracle", "detail": f, "lines": [f.get("ref_case"), f["case"]] if f.get("ref_case") else [f["case"]]},
                       what="%s: %s" % (f["why"], f["case"][:160]))
+
+    # (E1) history independence of complete forms (scratch-buffer reuse)
+    alone, hcrashes, hlines = history_oracle(hx, seqs)
+    report_crashes(ctx, hx, hcrashes, "while parsing a single form")
+    whole_ev = {}
+    for i, ti in enumerate(owner):
+        if ti >= 0 and texts[ti].get("kind") == "sequence" and ti not in whole_ev:
+            whole_ev[ti] = (lines[i], split_out(outs[i])[0])
+    base = len(texts) - len(seqs)
+    hist_checked = 0
+    for si, t in enumerate(seqs):
+        w = whole_ev.get(base + si)
+        if not w:
+            continue
+        evs = w[1].split()
+        if len(evs) != len(t["forms"]) or any(not e.startswith("v:") for e in evs):
+            continue      # an error or a form that is not exactly one value: the 1-1 alignment is lost, skip
+        for fi, f in enumerate(t["forms"]):
+            a = alone.get((si, fi), "CRASH")
+            if a == "CRASH":
+                continue
+            aev = split_out(a)[0].split()
+            hist_checked += 1
+            if len(aev) != 1 or strip_sm(aev[0]) != strip_sm(evs[fi]):
+                sig = "parse:value-depends-on-earlier-input"
+                if sig not in reported:
+                    reported.add(sig)
+                    b = t["alone"][fi]
+                    ctx.violation(sig, {"kind": "history", "lines": [w[0], "case %s c%d,E,D" % (b.hex(), len(b))], "form_index": fi,
+                                        "in_sequence": evs[fi], "alone": " ".join(aev)},
+                                  what="form %r parses to %s after earlier forms but to %s in a fresh parser" % (f, evs[fi][:80], " ".join(aev)[:80]))
+                break
 
     # (D) correspondence with the Lean model
     diffs = []
@@ -483,7 +562,7 @@ def run(ctx, replay_lines=None):
                 "with clone points and interleaved status/where/state/has-more/produce/error/GC); a jdn case = one value term; non-trivial = distinct protocol line",
         "samples": [lines[0][:200], lines[len(lines) // 2][:200], rt_lines[-1][:200]],
         "texts": len(texts), "schedules_per_text": nsched, "parser_runs": len(lines),
-        "oracle_failures": len(fails), "correspondence_runs": model_lines, "correspondence_diffs": len(diffs),
+        "oracle_failures": len(fails), "history_independence_forms_checked": hist_checked, "sequence_texts": len(seqs), "correspondence_runs": model_lines, "correspondence_diffs": len(diffs),
         "jdn_terms": len(rt_lines), "jdn_results": dict(rt_stats), "jdn_printer_correspondence_diffs": len(pdiffs),
         "distribution": summ,
     }
@@ -515,6 +594,10 @@ def replay(ctx, path):
     bad = False
     if r.get("kind") == "jdn-roundtrip":
         bad = any(not o.startswith("ok") for o in outs)
+    elif r.get("kind") == "history":
+        ev = [split_out(o)[0].split() for o in outs]
+        fi = r.get("form_index", 0)
+        bad = len(ev) == 2 and (len(ev[0]) <= fi or len(ev[1]) != 1 or strip_sm(ev[0][fi]) != strip_sm(ev[1][0]))
     elif r.get("kind") == "parser-oracle":
         texts = [{"kind": "replay", "bytes": b"", "flushes": []}]
         if r.get("detail", {}).get("expected") is not None:
